@@ -81,6 +81,12 @@ MUTANTS = [
  ("MC_Bytecode", "MC_Bytecode.cfg", "Bytecode.tla",
   "[] c = 5 -> << <<code(BcName(nm)), map[o], 255, map[a]>>, imm>>", "[] c = 5 -> << <<code(BcName(nm)), map[o], map[a], 255>>, imm>>",
   "imm-reg forms packed like reg-imm forms"),
+ ("MC_JitCall", "JitCall.cfg", "JitCall.cfg", "RestoreCell <- Cell0", "RestoreCell <- Slip",
+  "a copy-and-paste slip in the list that reloads the tape registers after an out-of-line call"),
+ ("MC_JitCall", "JitCall.cfg", "JitCall.cfg", "RestoredPtrs <- AllPtrs", "RestoredPtrs <- NoR15",
+  "r15 (the callee's address during the call) is not reloaded afterwards"),
+ ("MC_JitCall", "JitCall.cfg", "JitCall.cfg", "ArgCell = 12", "ArgCell = 11",
+  "the argument vector is stored into the save area of ymm15"),
  ("OctreeMerge", "OctreeMerge_A2.cfg", "OctreeMerge.tla",
   'CASE cell[1] = "L" -> Leaf(cell[2] + voff, cell[3])', 'CASE cell[1] = "L" -> Leaf(cell[2], cell[3])',
   "leaf vertex indices not rebased when a local octree is merged"),
